@@ -33,7 +33,7 @@ RULE = (
 )
 ASSUMPTIONS = ["bodies whose value is needed to choose a branch (dispatch, bind source, case dispatch, Map iterables) count as needed"]
 FLOORS = {"constructions_checked": (1500, 30000), "evaluations_checked": (4000, 80000), "skipped_bodies_confirmed": (1500, 30000),
-          "windows_checked": (2000, 40000), "apply_order_checked": (100, 1000), "definition_time_checks": (60, 600)}
+          "windows_checked": (2000, 20000), "apply_order_checked": (100, 1000), "definition_time_checks": (60, 600)}
 SHARDS_QUICK = 4
 
 
@@ -162,11 +162,39 @@ def evaluation_case(ctx, program, o, tag):
     if extra and got[0] == "ok" and exp[0] == "ok":
         ctx.violation("unneeded-body-ran", f"bodies {extra} ran but the eager reference never needs them for these options (outcome {short(got, 80)})", W)
         return
-    # other probe kinds: defaults (factories) of present options, unselected predicates etc.
-    real_other = set((e[1], e[2]) for e in log.events if e[1] in ("factory",))
-    ref_other = set((k, p) for k, p, _ in ref.ran if k in ("factory",))
-    if real_other - ref_other and got[0] == "ok" and exp[0] == "ok":
-        ctx.violation("unneeded-default-evaluated", f"{sorted(real_other - ref_other)} ran but the reference does not need them", W)
+    # default factories: the factory of an option whose key was present, and factories that occur only inside
+    # alternatives the reference decided against, must not run (a factory inside a selector may run while a cache
+    # key is computed, like selector bodies)
+    ran_fac = set(e[2] for e in log.events if e[1] == "factory")
+    inside_unselected = set()
+    for u in ref.unselected:
+        for n in walk(u):
+            if n.get("k") == "opt" and n.get("dk") == "factory":
+                inside_unselected.add(f"fac{n['n']}" if "n" in n else f"fac:{n['key']}")
+    elsewhere = set()
+
+    def collect(spec):
+        if id(spec) in avoid:
+            return
+        if spec.get("k") == "opt" and spec.get("dk") == "factory":
+            elsewhere.add(f"fac{spec['n']}" if "n" in spec else f"fac:{spec['key']}")
+        from ..ref import children
+
+        for c in children(spec):
+            collect(c)
+
+    collect(program["root"])
+    from ..ref import dataset_children
+
+    for d in program["datasets"].values():
+        for sp in dataset_children(d):
+            collect(sp)
+    # (a factory pid marked unused at one evaluation of its option may be needed at another: only pids that are
+    #  never needed anywhere in the reference run are forbidden)
+    needed_fac = set(p for k, p, _ in ref.ran if k == "factory")
+    forbidden_fac = ((ref.unused_factories | (inside_unselected - elsewhere)) - needed_fac) & ran_fac
+    if forbidden_fac and got[0] == "ok" and exp[0] == "ok":
+        ctx.violation("unneeded-default-evaluated", f"default factories {sorted(forbidden_fac)} ran although their option's key was present / their alternative was not selected", W)
         return
     # every body pid that exists in the program but the reference skipped, and that indeed did not run
     all_pids = program_body_pids(program)
